@@ -7,7 +7,7 @@ VARIABLE hist
 
 Params(same, mn, fl, per, mf, ab, sub, oth) ==
   [sameStep |-> same, minS |-> mn, fullS |-> fl, per |-> per, maxF |-> mf,
-   applyBias |-> ab, sub |-> sub, otherF |-> oth]
+   applyBias |-> ab, sub |-> sub, otherF |-> oth, dev |-> FALSE]
 
 NoPer == <<FALSE, FALSE>>
 \* timing x per-variable subtraction x another bias on the FIRST variable only x ramp
@@ -20,6 +20,14 @@ PS_Feat == { Params(same, 0, 1, per, mf, ab, <<FALSE, FALSE>>, <<0, 0>>) :
                same \in BOOLEAN, per \in {NoPer, <<FALSE, TRUE>>}, mf \in {<<0, 0>>, <<2, 1>>}, ab \in BOOLEAN }
            \cup { Params(same, 0, 1, NoPer, <<0, 0>>, TRUE, <<TRUE, FALSE>>, <<0, 3>>) : same \in BOOLEAN }
 PS_Quick == PS_Core \cup PS_Feat
+\* quick tier: the core without the redundant corners (same-step timing only with the plain ramp, another bias only
+\* with the delayed ramp or same-step timing) plus every single-feature variation
+PS_Small == { q \in PS_Core : (q.sameStep => q.minS = 0) /\ (q.otherF # <<0, 0>> => (q.minS = 1 \/ q.sameStep)) } \cup PS_Feat
+\* the same configurations with the code's deviation followed: the real code must then agree at EVERY step,
+\* also after the deviation fired (deep behaviours are otherwise lost to the known finding)
+PS_Dev == { [q EXCEPT !.dev = TRUE] : q \in { q \in PS_Core : q.sub # <<FALSE, FALSE>> /\ ~q.sameStep } }
+PS_Sim == PS_Quick \cup PS_Dev
+FS2_One == {<<-1, 2>>}
 PS_One == { Params(FALSE, 0, 1, NoPer, <<0, 0>>, TRUE, <<FALSE, FALSE>>, <<0, 0>>) }
 
 X1_A == {0, 1, 2}
